@@ -166,6 +166,28 @@ def build_conv(dwm, dws, depth_s, K, wrapper=False):
     return h
 
 
+def build_conv_burst(dwm, dws, depth_s, K):
+    """DownConverter in front of a BURST-capable SRAM, master free to issue classic, constant, incrementing and wrapping bursts"""
+    from litex.soc.interconnect import wishbone
+    top = Top()
+    sram, sbus = _sram(dws, depth_s, bursting=True)
+    mbus = wishbone.Interface(data_width=dwm, adr_width=8, bursting=True)
+    top.submodules.conv = wishbone.DownConverter(mbus, sbus)
+    top.submodules.sram = sram
+    depth_m = depth_s * dws // dwm
+    top.submodules.mm = mm = WBMaster(mbus, depth_m, burst=True, need_no_other=1)
+    wb = Signal(name_override="w_wrap_burst_beat")
+    seen = top.reg(1, "saw_wrap_beat")
+    top.sync += If(mbus.cyc & mbus.stb & mbus.ack & (mbus.bte != 0) & mm.inb, seen.eq(1))
+    top.comb += wb.eq(seen & mm.w_rw)
+    h = H("down_burst_%dto%d" % (dwm, dws), top, mm.free, rigid=[mm.A, mm.L], assume=[mm.asm, mm.asm_idx],
+          bad=dict(read_returns_last_enabled_write=mm.bad_read, ack_only_for_request=mm.bad_ack), witness=dict(write_other_read=mm.w_rw, wrapping_burst_then_read=wb), K=K, funcs=FUNCS,
+          cfg=dict(master_width=dwm, slave_width=dws, slave_depth=depth_s, bursts="classic/constant/incrementing/wrapping"), show=mm.showl + [mbus.cti, mbus.bte, sbus.cyc, sbus.stb, sbus.adr, sbus.cti, sbus.bte, sbus.ack], vcycles=30,
+          excuses=dict(read_returns_last_enabled_write=[mm.exc_wrap]))
+    h.init_free = "mem:backing"
+    return h
+
+
 def build_cache(cachesize, dwm, dws, depth_s, K, reverse=True):
     from litex.soc.interconnect import wishbone
     top = Top()
@@ -315,6 +337,7 @@ def jobs(tier):
     for (cs, dwm, dws, d) in caches:
         js.append(Job("cache%d_%dto%d" % (cs, dwm, dws), build_cache, dict(cachesize=cs, dwm=dwm, dws=dws, depth_s=d, K=(16 if T else 12)), cost=30, timeout_s=3400))
     js.append(Job("warmcache4_8to8", build_cache_warm, dict(cachesize=4, depth_s=16, K=(18 if T else 16)), cost=60, timeout_s=3400))
+    js.append(Job("down_burst_16to8", build_conv_burst, dict(dwm=16, dws=8, depth_s=32, K=(16 if T else 12)), cost=40, timeout_s=3400))
     js.append(Job("remapper_origin", build_remap, dict(variant="origin", K=0)))
     js.append(Job("remapper_regions", build_remap, dict(variant="regions", K=0)))
     js.append(Job("wishbone2csr_registered", build_csrbridge, dict(register=True, K=K), cost=4))
